@@ -175,6 +175,18 @@ func (s *seqDouble) GetNextBatch(ctx context.Context, req coresequencer.GetNextB
 	it := s.next
 	switch it.Seq {
 	case "err":
+		// a transient sequencing-layer fault of any class: a request-level deadline or cancellation of the
+		// sequencer's own client is NOT the node's context ending, and a wrapped ErrNoBatch is "no batch"
+		switch s.idx % 5 {
+		case 1:
+			return nil, context.DeadlineExceeded
+		case 2:
+			return nil, fmt.Errorf("seq double: rpc: %w", context.Canceled)
+		case 3:
+			return nil, fmt.Errorf("seq double: %w", block.ErrNoBatch)
+		case 4:
+			return nil, fmt.Errorf("seq double: upstream: %w", context.DeadlineExceeded)
+		}
 		return nil, errors.New("seq double: transient error")
 	case "nil":
 		if s.idx%2 == 0 {
